@@ -1,4 +1,5 @@
 import Chiritori.Lemmas.Decision
+import Chiritori.Props.C20
 /-
   C06 — Marker and skip decision: exact name membership; skip always wins.
 
@@ -90,5 +91,8 @@ example : markerIsRemoval ⟨"tl".toList, "rm".toList, 0, 0, [], ["a".toList]⟩
     ⟨"rm".toList, [⟨"name".toList, some "a".toList⟩]⟩ = true := by decide
 example : markerIsRemoval ⟨"tl".toList, "rm".toList, 0, 0, [], ["ab".toList]⟩
     ⟨"rm".toList, [⟨"name".toList, some "a".toList⟩]⟩ = false := by decide
+
+/-- command-line clause of C06: given no target option, the binary's configuration removes no removal-marker -/
+theorem cli_no_target_option := @Chiritori.Props.C20.no_target_option
 
 end Chiritori.Props.C06
